@@ -929,7 +929,16 @@ fn wire_case(ctx: &mut Ctx, fix: &KeyFix, tag: u8, hp: &HP, pw: &[u8]) -> Option
     let sec = hp.wire(fix.ver, &blob);
     let mut body = fix.pub_body.clone();
     body.extend_from_slice(&sec);
-    let packet = frame::frame_fixed(true, tag, if body.len() < 192 { 1 } else if body.len() < 8384 { 2 } else { 5 }, &body)?;
+    // (current and legacy header format, minimal and non-minimal length forms, in rotation: what is
+    //  derived from the key packet — the AEAD info / associated data — does not depend on its framing)
+    static FRAMING: std::sync::atomic::AtomicUsize = std::sync::atomic::AtomicUsize::new(0);
+    let fk = FRAMING.fetch_add(1, std::sync::atomic::Ordering::Relaxed);
+    let packet = match fk % 4 {
+        1 => frame::frame_fixed(false, tag, if body.len() < 256 { 0 } else if body.len() < 65536 { 1 } else { 2 }, &body)?,
+        2 => frame::frame_fixed(false, tag, 2, &body)?,
+        3 => frame::frame_fixed(true, tag, 5, &body)?,
+        _ => frame::frame_fixed(true, tag, if body.len() < 192 { 1 } else if body.len() < 8384 { 2 } else { 5 }, &body)?,
+    };
     let input = format!("packet={} pw={}", hx(&packet), hx(pw));
     let site = format!("PacketParser -> SecretKey::unlock (harness-built packet, usage octet {})", if hp.var == 1 { "legacy".to_string() } else { hp.usage_octet().to_string() });
     parse_case(ctx, fix, &sec, "harness_built");
